@@ -13,6 +13,7 @@ from concurrent.futures import ThreadPoolExecutor
 VERIF = os.path.dirname(os.path.dirname(os.path.abspath(__file__)))
 REPO = os.environ.get('VERIF_REPO', '/repo')
 PY = os.environ.get('VERIF_PYTHON', '/venv/bin/python')
+OUT = os.environ.get('VERIF_OUT', VERIF)   # where evidence/ and replays/ go
 NPROC = int(os.environ.get('VERIF_JOBS', '0')) or min(16, os.cpu_count() or 4)
 
 
@@ -150,7 +151,7 @@ def load_findings():
 
 
 def write_evidence(pid, ev):
-    d = os.path.join(VERIF, 'evidence')
+    d = os.path.join(OUT, 'evidence')
     os.makedirs(d, exist_ok=True)
     p = os.path.join(d, pid + '.json')
     tmp = p + '.tmp'
@@ -162,6 +163,6 @@ def write_evidence(pid, ev):
 
 
 def replay_path(pid, tag):
-    d = os.path.join(VERIF, 'replays')
+    d = os.path.join(OUT, 'replays')
     os.makedirs(d, exist_ok=True)
     return os.path.join(d, '%s-%s.json' % (pid, tag))
